@@ -209,6 +209,15 @@ func (s *EtcdWatchStream) Send(r *etcdserverpb.WatchResponse) error {
 }
 
 func (s *EtcdWatchStream) Recv() (*etcdserverpb.WatchRequest, error) {
+	// a pending request always wins over a cancelled context: Go's select would choose at random
+	select {
+	case r, ok := <-s.Reqs:
+		if !ok {
+			return nil, io.EOF
+		}
+		return r, nil
+	default:
+	}
 	select {
 	case r, ok := <-s.Reqs:
 		if !ok {
